@@ -105,7 +105,31 @@ def run_valmon(prop, tier, t0):
                            required_anchors=['validate_required'])
 
 
-ENGINES = {'C19': run_valmon}
+ARCHMON = {
+    'C03': {'quick': {'cases': 2400, 'budget_s': 55}, 'thorough': {'cases': 60000, 'budget_s': 700},
+            'floor': 300, 'req': ['c03_ops', 'c03_content_checks', 'c03_failed_store_checks', 'c03_copy_checks',
+                                  'c03_eq_checks', 'c03_isolation_checks', 'c03_cached_sync_checks']},
+    'C08': {'quick': {'cases': 4000, 'budget_s': 45}, 'thorough': {'cases': 100000, 'budget_s': 600},
+            'floor': 300, 'req': ['c08_steps', 'c08_parked_checks', 'c08_toggle_on', 'c08_sync_ops_while_off', 'c08_sync_ops_with_conflicting_values']},
+}
+
+
+def run_archmon(prop, tier, t0):
+    from kv import archmon
+    spec = ARCHMON[prop]
+    opts = dict(spec[tier])
+    merged, problems = common.run_shards('archmon', prop, tier, common.NCPU, opts,
+                                         timeout=opts['budget_s'] * 3 + 120)
+    return common.conclude(prop, tier, t0, merged, problems, archmon.RULES[prop], spec['floor'],
+                           'archmon', assumptions=ASSUME_COMMON + [
+                               'keys and values are restricted to what each backend documents as storable: '
+                               'json encodings get str keys and JSON-native values, the sqlite3 fallback scalars, '
+                               'source-text encodings repr-round-trippable values and (for directories) importable names',
+                               'popkeys is not demanded of dict_archive/null_archive (they, like dict, do not offer it)',
+                           ], required_counters=spec['req'])
+
+
+ENGINES = {'C19': run_valmon, 'C03': run_archmon, 'C08': run_archmon}
 for _p in CACHEMON:
     ENGINES[_p] = run_cachemon
 for _p in KEYMON:
